@@ -140,6 +140,49 @@ pub fn check_case(ci: usize, case: &Value, targets: &[String], max_perms: usize)
     out
 }
 
+/// Scale: many configured loggers under one parent and a deep chain (Routing.tla has no bound on either): the
+/// effective logger of a target is still its longest configured prefix, levels and appenders follow the chain.
+fn check_scale() -> Vec<Value> {
+    let mut out = vec![];
+    for n in [255usize, 256, 257, 65535, 65536, 65537] {
+        let counters: Vec<Arc<Counter>> = (0..3).map(|_| Arc::new(Counter::default())).collect();
+        let mut b = log4rs::Config::builder();
+        for (i, name) in APPENDERS.iter().enumerate() {
+            b = b.appender(log4rs::config::Appender::builder().build(*name, Box::new(CountingAppender(counters[i].clone()))));
+        }
+        // siblings s0 .. s(n-1) under "p"; odd ones are Error-only and non-additive with B, even ones Trace and additive with A
+        for j in 0..n {
+            let lb = log4rs::config::Logger::builder().additive(j % 2 == 0).appender(if j % 2 == 0 { "A" } else { "B" });
+            b = b.logger(lb.build(format!("p::s{}", j), if j % 2 == 0 { log::LevelFilter::Trace } else { log::LevelFilter::Error }));
+        }
+        let cfg = match b.build(log4rs::config::Root::builder().appender("C").build(log::LevelFilter::Warn)) {
+            Ok(c) => c,
+            Err(e) => {
+                out.push(json!({"case": "scale", "config": {"siblings": n}, "mismatch": {"what": "build", "error": e.to_string()}}));
+                continue;
+            }
+        };
+        let logger = log4rs::Logger::new(cfg);
+        for j in [0usize, 1, 254, 255, 256, 257, 65534, 65535, 65536, n - 2, n - 1].into_iter().filter(|j| *j < n) {
+            for (lvl, sub) in [(log::Level::Info, ""), (log::Level::Error, "::deeper::x")] {
+                for c in &counters {
+                    c.n.store(0, Ordering::Relaxed);
+                }
+                let t = format!("p::s{}{}", j, sub);
+                let _ = catch(|| logger.log(&log::Record::builder().target(&t).level(lvl).args(format_args!("m")).build()));
+                let got: Vec<usize> = counters.iter().map(|c| c.n.load(Ordering::Relaxed)).collect();
+                // even: Trace, additive: A then root's C; odd: Error only, B alone
+                let want = if j % 2 == 0 { vec![1, 0, 1] } else if lvl == log::Level::Error { vec![0, 1, 0] } else { vec![0, 0, 0] };
+                if got != want {
+                    out.push(json!({"case": "scale", "config": {"siblings": n}, "mismatch": {"what": "deliveries with many configured loggers",
+                                    "target": t, "level": lvl.to_string(), "expected": want, "actual": got, "appenders": APPENDERS}}));
+                }
+            }
+        }
+    }
+    out
+}
+
 /// `routing <cases.ndjson> <out.ndjson>`
 pub fn main(args: &[String]) {
     quiet_panics();
@@ -158,6 +201,8 @@ pub fn main(args: &[String]) {
         let mm = check_case(mix(i), c, &targets, 6);
         mm.into_iter().take(1).map(|m| json!({"case": i, "config": {"root": c["root"], "loggers": c["loggers"]}, "mismatch": m})).collect()
     });
+    let mut res = res;
+    res.extend(check_scale());
     write_ndjson(&args[1], &res);
     println!("{}", json!({"cases": cases.len(), "targets": targets.len(), "mismatches": res.len(),
                           "log_calls_per_case": targets.len() * 5}));
